@@ -283,9 +283,10 @@ impl C12 {
         let nd = scn.data.len();
         for _ in 0..k {
             let structured = r.chance(1, 2);
-            let fmt: &str = if structured { *r.pick(&["json", "json", "yaml", "junit"]) } else { "json" };
-            let tail: Vec<String> = if structured { vec!["--structured".into(), "-o".into(), fmt.into(), "-S".into(), "none".into()] } else { vec!["-o".into(), "json".into(), "-S".into(), "none".into()] };
             let choice = r.below(10);
+            // (SARIF names data files by path: not for payload deliveries)
+            let fmt: &str = if structured { if (7..9).contains(&choice) { *r.pick(&["json", "json", "yaml", "junit"]) } else { *r.pick(&["json", "json", "yaml", "junit", "sarif"]) } } else { "json" };
+            let tail: Vec<String> = if structured { vec!["--structured".into(), "-o".into(), fmt.into(), "-S".into(), "none".into()] } else { vec!["-o".into(), "json".into(), "-S".into(), "none".into()] };
             if choice < 3 {
                 // explicit arguments in a permutation
                 let pr = r.perm(nr);
@@ -610,6 +611,45 @@ impl C12 {
                 out.push(("report-count".into(), format!("{} JUnit test cases for {} pairs", seen, scn.rules.len() * scn.data.len())));
             }
             rep.count("judged.junit", 1);
+        } else if structured && d.fmt == "sarif" {
+            // results[] = one entry per failing rule and data file: the set of (data file, rule)
+            // must be the union of the pairs' own failing rules
+            let v: Option<Value> = serde_json::from_slice::<Value>(&s.stdout).ok();
+            let results = v.as_ref().and_then(|v| v.get("runs")).and_then(|r| r.get(0)).and_then(|r| r.get("results")).and_then(|r| r.as_array()).cloned();
+            match results {
+                None => out.push(("unparsable".into(), "SARIF output has no runs[0].results".into())),
+                Some(results) => {
+                    let mut got: std::collections::BTreeSet<(usize, String)> = Default::default();
+                    for res in &results {
+                        let uri = res.get("locations").and_then(|l| l.get(0)).and_then(|l| l.get("physicalLocation")).and_then(|l| l.get("artifactLocation")).and_then(|l| l.get("uri")).and_then(|u| u.as_str()).unwrap_or("");
+                        let rid = res.get("ruleId").and_then(|x| x.as_str()).unwrap_or("").to_uppercase();
+                        match scn.data.iter().position(|rel| uri.ends_with(rel.as_str())) {
+                            Some(di) => {
+                                got.insert((di, rid));
+                            }
+                            None => out.push(("attribution".into(), "a SARIF result names no known data file".into())),
+                        }
+                    }
+                    let mut want: std::collections::BTreeSet<(usize, String)> = Default::default();
+                    for ri in 0..scn.rules.len() {
+                        for di in 0..scn.data.len() {
+                            if let Some(a) = refs.pair[&(ri, di)].0.get("not_compliant").and_then(|a| a.as_array()) {
+                                for e in a {
+                                    if let Some(n) = e.get("Rule").and_then(|r| r.get("name")).and_then(|n| n.as_str()) {
+                                        want.insert((di, n.to_uppercase()));
+                                    }
+                                }
+                            }
+                        }
+                    }
+                    if got != want {
+                        let missing: Vec<String> = want.difference(&got).take(3).map(|(d, r)| format!("({}, {})", scn.data[*d], r)).collect();
+                        let extra: Vec<String> = got.difference(&want).take(3).map(|(d, r)| format!("({}, {})", scn.data[*d], r)).collect();
+                        out.push(("sarif-results".into(), format!("SARIF results are not the union of the pairs' failing rules: missing {:?}, unexpected {:?}", missing, extra)));
+                    }
+                }
+            }
+            rep.count("judged.sarif", 1);
         } else if structured {
             let parsed: Option<Value> = if d.fmt == "yaml" { serde_yaml::from_slice::<Value>(&s.stdout).ok() } else { serde_json::from_slice::<Value>(&s.stdout).ok() };
             let arr = match parsed {
